@@ -3,10 +3,7 @@
 package store
 
 import (
-	"context"
 	"fmt"
-	"sort"
-	"strings"
 
 	"github.com/els0r/goProbe/v4/pkg/capture/capturetypes"
 	"github.com/els0r/goProbe/v4/pkg/goDB"
@@ -38,11 +35,9 @@ func (discard) Write(p []byte) (int, error) { return len(p), nil }
 
 // world is the simulated environment of one run.
 type world struct {
+	*dbcheck.View
 	fs *simfs.FS
 	r  *sim.R
-	// emptyDayOK names an (iface/day) whose directory may exist without metadata and without being
-	// part of the model (left behind by a rejected first session; C03 does not judge leftovers)
-	emptyDayOK string
 }
 
 func newWorld(r *sim.R) *world {
@@ -50,7 +45,7 @@ func newWorld(r *sim.R) *world {
 	f.Mount("w", tree)
 	f.Mount("r", tree)
 	f.OnFault = func(kind string, op *simfs.Op) { r.Fault(kind) }
-	w := &world{fs: f, r: r}
+	w := &world{fs: f, r: r, View: &dbcheck.View{FS: f, R: r, Tree: tree, Rel: rel, Path: rdb}}
 	// the database root exists before the first write-out (goProbe is started on an existing path)
 	restore := simfs.Install(f)
 	if err := simfs.MkdirAll(wdb, 0o755); err != nil {
@@ -139,219 +134,3 @@ func genHistory(t *sim.Tape, n int, maxFlows int) []writeout {
 	return out
 }
 
-// visibleState reads the whole database back through the real reader (as the reader process) and
-// compares it with the model. inflight (optional) is an un-acknowledged block that may or may not
-// be visible in its day. It returns the store the reader sees when that is a legal state.
-func (wd *world) checkStore(m *model.Store, inflight *model.Block, inflightIface string) (seen *model.Store, clause, detail string) {
-	seen = m.Clone()
-	dirs := dbcheck.AllDayDirs(wd.fs, tree, rel)
-	// every day of the model must be present exactly once
-	type key struct {
-		iface string
-		day   int64
-	}
-	want := map[key]bool{}
-	for _, iface := range m.IfaceNames() {
-		for _, d := range m.Days(iface) {
-			want[key{iface, d}] = true
-		}
-	}
-	var inflightKey key
-	if inflight != nil {
-		inflightKey = key{inflightIface, model.DayOf(inflight.TS)}
-	}
-	var keys []key
-	for iface, days := range dirs {
-		for d := range days {
-			keys = append(keys, key{iface, d})
-		}
-	}
-	for k := range want {
-		if _, ok := dirs[k.iface][k.day]; !ok {
-			keys = append(keys, k)
-		}
-	}
-	sort.Slice(keys, func(i, j int) bool {
-		if keys[i].iface != keys[j].iface {
-			return keys[i].iface < keys[j].iface
-		}
-		return keys[i].day < keys[j].day
-	})
-	for _, k := range keys {
-		names := dirs[k.iface][k.day]
-		if len(names) == 0 {
-			return nil, "day-missing", fmt.Sprintf("iface %s day %d: committed day directory is gone", k.iface, k.day)
-		}
-		if len(names) > 1 {
-			return nil, "day-duplicated", fmt.Sprintf("iface %s day %d: several directories %v", k.iface, k.day, names)
-		}
-		wantDay := m.Ifaces[k.iface][k.day]
-		isInflightDay := inflight != nil && k == inflightKey
-		if wantDay == nil && !isInflightDay && wd.emptyDayOK == fmt.Sprintf("%s/%d", k.iface, k.day) {
-			if _, ok := wd.fs.ReadRaw(tree, fmt.Sprintf("%s/.blockmeta", dayPath(k.iface, k.day, names[0]))); !ok {
-				continue
-			}
-		}
-		if wantDay == nil && !isInflightDay {
-			return nil, "day-unexpected", fmt.Sprintf("iface %s day %d: directory %s holds a day that was never written", k.iface, k.day, names[0])
-		}
-		if wantDay == nil {
-			wantDay = &model.Day{}
-		}
-		var first *dbcheck.DayContent
-		for mode := 0; mode < 2; mode++ {
-			got, err := dbcheck.ReadDay(rdb+"/"+k.iface, k.day, names[0], mode, mode)
-			if err != nil {
-				if isInflightDay && len(wantDay.Blocks) == 0 {
-					// a day that holds no committed block yet may be unreadable as such; what
-					// matters is that listings and queries cope with it (checked separately)
-					wd.r.Probe("inflight_day_unreadable")
-					first = nil
-					break
-				}
-				return nil, "day-unreadable", fmt.Sprintf("iface %s day %d (%s): %v", k.iface, k.day, names[0], err)
-			}
-			if mode == 0 {
-				first = got
-			}
-			diff := dbcheck.CompareDay(wantDay, got)
-			if diff != "" && isInflightDay {
-				with := &model.Day{Blocks: append(append([]model.Block(nil), wantDay.Blocks...), *inflight)}
-				if d2 := dbcheck.CompareDay(with, got); d2 == "" {
-					diff = ""
-					if mode == 0 {
-						seen.Add(k.iface, *inflight)
-						wd.r.Probe("inflight_block_visible")
-					}
-				}
-			}
-			if diff != "" {
-				return nil, "readback-differs", fmt.Sprintf("iface %s day %d (%s, reader mode %d): %s", k.iface, k.day, names[0], mode, diff)
-			}
-		}
-		// the directory-name suffix is what listings use without opening the metadata; a stale one
-		// shows up behaviourally in checkServices (listing-disagrees), here it is only a probe
-		if first != nil && first.HasSuffix && (first.SufTraffic != first.MetaTraffic || first.SufCounts != first.MetaCounts) {
-			wd.r.Probe("dirname_summary_stale")
-		}
-	}
-	return seen, "", ""
-}
-
-// expectedRows renders the rows a full query (all attributes, time and iface labels) must return.
-func expectedRows(m *model.Store, first, last int64) []string {
-	var out []string
-	for _, iface := range m.IfaceNames() {
-		for _, d := range m.Days(iface) {
-			for _, b := range m.Ifaces[iface][d].Blocks {
-				if b.TS < first || b.TS > last {
-					continue
-				}
-				for _, f := range b.Flows {
-					out = append(out, fmt.Sprintf("%d|%s|%s|%s|%d|%d|br=%d bs=%d pr=%d ps=%d", b.TS, iface, ipStr(f.Sip), ipStr(f.Dip), f.Dport, f.Proto, f.C.BR, f.C.BS, f.C.PR, f.C.PS))
-				}
-			}
-		}
-	}
-	sort.Strings(out)
-	return out
-}
-
-func diffRows(want, got []string) string {
-	wm := map[string]int{}
-	for _, s := range want {
-		wm[s]++
-	}
-	var extra, missing []string
-	for _, s := range got {
-		if wm[s] > 0 {
-			wm[s]--
-		} else {
-			extra = append(extra, s)
-		}
-	}
-	for s, n := range wm {
-		for i := 0; i < n; i++ {
-			missing = append(missing, s)
-		}
-	}
-	sort.Strings(missing)
-	if len(extra) == 0 && len(missing) == 0 {
-		return ""
-	}
-	clip := func(x []string) []string {
-		if len(x) > 6 {
-			return append(x[:6:6], fmt.Sprintf("… %d more", len(x)-6))
-		}
-		return x
-	}
-	return fmt.Sprintf("%d rows expected, %d returned\n missing: %s\n unexpected: %s", len(want), len(got), strings.Join(clip(missing), "\n          "), strings.Join(clip(extra), "\n          "))
-}
-
-// checkServices exercises interface listing, per-interface summaries and a full query as the
-// reader process and compares them with the store the reader sees. Every failing clause is handed
-// to report; a non-nil return of report stops the checking.
-func (wd *world) checkServices(seen *model.Store, mayExtraIface string, withQuery bool, report func(clause, detail string) *sim.Violation) *sim.Violation {
-	ifs, err := dbcheck.Interfaces(rdb)
-	if err != nil {
-		return report("interfaces-fail", err.Error())
-	}
-	wantIfs := seen.IfaceNames()
-	got := map[string]bool{}
-	for _, i := range ifs {
-		got[i] = true
-	}
-	for _, i := range wantIfs {
-		if !got[i] {
-			if v := report("interfaces-disagree", fmt.Sprintf("interface %s has data but is not listed (%v)", i, ifs)); v != nil {
-				return v
-			}
-		}
-		delete(got, i)
-	}
-	for _, i := range sim.SortedKeys(got) {
-		if i != mayExtraIface {
-			if v := report("interfaces-disagree", fmt.Sprintf("listed interface %q holds no data (listed %v, with data %v)", i, ifs, wantIfs)); v != nil {
-				return v
-			}
-		}
-	}
-	const lo, hi = int64(1), int64(4102444800)
-	for _, iface := range ifs {
-		md, err := dbcheck.Listing(rdb, iface, lo, hi)
-		if err != nil {
-			if v := report("listing-fails", fmt.Sprintf("summary of interface %s: %v", iface, err)); v != nil {
-				return v
-			}
-			continue
-		}
-		var t model.Traffic
-		var c model.Counters
-		for _, d := range seen.Days(iface) {
-			dt, dc := seen.Ifaces[iface][d].Totals()
-			t.V4 += dt.V4
-			t.V6 += dt.V6
-			t.Drops += dt.Drops
-			c.Add(dc)
-		}
-		gt := model.Traffic{V4: md.Traffic.NumV4Entries, V6: md.Traffic.NumV6Entries, Drops: md.Traffic.NumDrops}
-		gc := model.Counters{BR: md.Counts.BytesRcvd, BS: md.Counts.BytesSent, PR: md.Counts.PacketsRcvd, PS: md.Counts.PacketsSent}
-		if gt != t || gc != c {
-			if v := report("listing-disagrees", fmt.Sprintf("summary of interface %s: %+v %+v, stored blocks sum to %+v %+v", iface, gt, gc, t, c)); v != nil {
-				return v
-			}
-		}
-	}
-	if withQuery && len(ifs) > 0 {
-		res, err := dbcheck.Query(context.Background(), rdb, dbcheck.FullArgs("any", lo, hi))
-		if err != nil {
-			return report("query-fails", err.Error())
-		}
-		if d := diffRows(expectedRows(seen, lo, hi), dbcheck.RowsCanon(res.Rows)); d != "" {
-			return report("query-disagrees", d)
-		}
-	}
-	return nil
-}
-
-func ipStr(b []byte) string { return model.IPString(b) }
